@@ -1653,6 +1653,12 @@ class Interp(object):
                 qz, az = to_z3(q), to_z3(a)
                 self.path.conds.append(Cond('z3', z3.And(b * qz <= az, az < b * qz + b)))
             return q
+        # floor division of reals: the uninterpreted floor of the exact quotient (equal to the quotient only when that is an integer)
+        a_ = a if isinstance(a, P) else P.const(a) if isinstance(a, (int, float, Fraction)) else None
+        b_ = b if isinstance(b, P) else P.const(b) if isinstance(b, (int, float, Fraction)) else None
+        if a_ is not None and b_ is not None:
+            quo = self.divide(a_, b_, node)
+            return P.atom('floor(%s)' % normal(quo).text())
         raise CheckerError('line %d: symbolic floor division needs a contract' % node.lineno)
 
     def sym_mod(self, a, b, node):
